@@ -2,6 +2,7 @@ package lua
 
 import (
 	"bufio"
+	"errors"
 	"fmt"
 	"io"
 	"reflect"
@@ -9,6 +10,8 @@ import (
 	"strings"
 	"time"
 	"unsafe"
+
+	"github.com/yuin/gopher-lua/parse"
 )
 
 func intMin(a, b int) int {
@@ -140,19 +143,26 @@ func isArrayKey(v LNumber) bool {
 	return isInteger(v) && v < LNumber(int((^uint(0))>>1)) && v > LNumber(0) && v < LNumber(MaxArrayIndex)
 }
 
+var errMalformedNumber = errors.New("malformed number")
+
+// parseNumber converts a string to a number the way lua_str2number does: a Lua
+// numeral (see parse.ParseNumber) with an optional sign, surrounded by optional
+// white space.
 func parseNumber(number string) (LNumber, error) {
-	var value LNumber
-	number = strings.Trim(number, " \t\n")
-	if v, err := strconv.ParseInt(number, 0, LNumberBit); err != nil {
-		if v2, err2 := strconv.ParseFloat(number, LNumberBit); err2 != nil {
-			return LNumber(0), err2
-		} else {
-			value = LNumber(v2)
-		}
-	} else {
-		value = LNumber(v)
+	number = strings.Trim(number, " \t\n\v\f\r")
+	neg := false
+	if len(number) > 0 && (number[0] == '-' || number[0] == '+') {
+		neg = number[0] == '-'
+		number = number[1:]
 	}
-	return value, nil
+	v, ok := parse.ParseNumber(number)
+	if !ok {
+		return LNumber(0), errMalformedNumber
+	}
+	if neg {
+		v = -v
+	}
+	return LNumber(v), nil
 }
 
 func popenArgs(arg string) (string, []string) {
